@@ -147,7 +147,7 @@ def spec_scripts(tier, wd, seed):
     d = os.path.join(wd, "ctlspec")
     os.makedirs(d, exist_ok=True)
     shutil.copy(os.path.join(common.SPEC, "Control.tla"), d)
-    nsess, maxlines = (2, 5) if tier == "thorough" else (2, 4)
+    nsess, maxlines = (2, 4)      # (2 sessions x 5 lines over 8 line classes is already > 50 M states)
     with open(os.path.join(d, "MCS.tla"), "w") as f:
         f.write('---- MODULE MCS ----\nEXTENDS Control\nSessDef == 0..%d\nClassesDef == {"query", "mutate", "await", "help", "unknown", "badarg", "convfail", "blank"}\n'
                 'TransportsDef == {"mem"}\n====\n' % (nsess - 1))
@@ -187,7 +187,7 @@ def spec_scripts(tier, wd, seed):
 def session_jobs(tier, wd, seed, refs):
     hists, infos = spec_scripts(tier, wd, seed)
     rng = random.Random(seed)
-    cap = 4000 if tier == "thorough" else 900
+    cap = 12000 if tier == "thorough" else 900
     if len(hists) > cap:
         hists = rng.sample(hists, cap)
     jobs = []
